@@ -8,6 +8,7 @@ import (
 	"net"
 	"sort"
 	"strings"
+	"sync"
 	"testing/synctest"
 	"time"
 
@@ -137,6 +138,7 @@ type Client struct {
 	rxbuf      []byte
 	w          *World
 	Retries    int
+	Gone       bool // control connection closed
 }
 
 // World is one closed system: network, real server, scripted endpoints.
@@ -152,6 +154,7 @@ type World struct {
 	CNames   []string
 	PNames   []string
 	Life     []string
+	lifeMu   sync.Mutex
 	GenCalls int
 	txc      uint32
 	tag      int
@@ -198,7 +201,9 @@ func (g relayGen) ipFor(network string) net.IP {
 }
 
 func (g relayGen) AllocatePacketConn(c turn.AllocateListenerConfig) (net.PacketConn, net.Addr, error) {
+	g.w.lifeMu.Lock()
 	g.w.GenCalls++
+	g.w.lifeMu.Unlock()
 	s, err := g.w.Net.ListenUDP(c.Network, &net.UDPAddr{IP: g.ipFor(c.Network), Port: c.RequestedPort})
 	if err != nil {
 		return nil, nil, err
@@ -208,7 +213,9 @@ func (g relayGen) AllocatePacketConn(c turn.AllocateListenerConfig) (net.PacketC
 }
 
 func (g relayGen) AllocateListener(c turn.AllocateListenerConfig) (net.Listener, net.Addr, error) {
+	g.w.lifeMu.Lock()
 	g.w.GenCalls++
+	g.w.lifeMu.Unlock()
 	l, err := g.w.Net.ListenTCPAddr(c.Network, &net.TCPAddr{IP: g.ipFor(c.Network), Port: c.RequestedPort})
 	if err != nil {
 		return nil, nil, err
@@ -242,7 +249,9 @@ func NewWorld(cfg Config, clients, peers []string) (*World, error) {
 		StrictAddressFamily: cfg.Strict,
 		InboundMTU:          cfg.MTU,
 		AuthHandler: func(ra *turn.RequestAttributes) (string, []byte, bool) {
+			w.lifeMu.Lock()
 			w.AuthCalls++
+			w.lifeMu.Unlock()
 			p, ok := Users[ra.Username]
 			if !ok || ra.Realm != Realm {
 				return "", nil, false
@@ -315,6 +324,12 @@ func NewWorld(cfg Config, clients, peers []string) (*World, error) {
 	return w, nil
 }
 
+func (w *World) logLife(s string) {
+	w.lifeMu.Lock()
+	w.Life = append(w.Life, s)
+	w.lifeMu.Unlock()
+}
+
 func (w *World) slow() {
 	if w.Cfg.SlowCB > 0 {
 		time.Sleep(w.Cfg.SlowCB)
@@ -324,38 +339,48 @@ func (w *World) slow() {
 func (w *World) eventHandler() turn.EventHandler {
 	return turn.EventHandler{
 		OnAllocationCreated: func(src, _ net.Addr, _, user, _ string, relay net.Addr, _ int) {
-			w.Life = append(w.Life, fmt.Sprintf("alloc+ %s %s %s", src, user, relay))
+			w.logLife(fmt.Sprintf("alloc+ %s %s %s", src, user, relay))
 			w.slow()
 		},
 		OnAllocationDeleted: func(src, _ net.Addr, _, user, _ string) {
-			w.Life = append(w.Life, fmt.Sprintf("alloc- %s %s", src, user))
+			w.logLife(fmt.Sprintf("alloc- %s %s", src, user))
 			w.slow()
 		},
 		OnPermissionCreated: func(src, _ net.Addr, _, _, _ string, relay net.Addr, peer net.IP) {
-			w.Life = append(w.Life, fmt.Sprintf("perm+ %s %s %s", src, relay, peer))
+			w.logLife(fmt.Sprintf("perm+ %s %s %s", src, relay, peer))
 			w.slow()
 		},
 		OnPermissionDeleted: func(src, _ net.Addr, _, _, _ string, relay net.Addr, peer net.IP) {
-			w.Life = append(w.Life, fmt.Sprintf("perm- %s %s %s", src, relay, peer))
+			w.logLife(fmt.Sprintf("perm- %s %s %s", src, relay, peer))
 			w.slow()
 		},
 		OnChannelCreated: func(src, _ net.Addr, _, _, _ string, relay, peer net.Addr, n uint16) {
-			w.Life = append(w.Life, fmt.Sprintf("chan+ %s %s %s %#x", src, relay, peer, n))
+			w.logLife(fmt.Sprintf("chan+ %s %s %s %#x", src, relay, peer, n))
 			w.slow()
 		},
 		OnChannelDeleted: func(src, _ net.Addr, _, _, _ string, relay, peer net.Addr, n uint16) {
-			w.Life = append(w.Life, fmt.Sprintf("chan- %s %s %s %#x", src, relay, peer, n))
+			w.logLife(fmt.Sprintf("chan- %s %s %s %#x", src, relay, peer, n))
 			w.slow()
 		},
 	}
 }
 
-// Close shuts the server and the harness endpoints down.
-func (w *World) Close() {
+// CloseServer closes the server and waits for quiescence.
+func (w *World) CloseServer() {
 	if w.Srv != nil {
 		_ = w.Srv.Close()
 	}
 	synctest.Wait()
+	if w.Cfg.SlowCB > 0 {
+		for range 8 {
+			time.Sleep(w.Cfg.SlowCB)
+			synctest.Wait()
+		}
+	}
+}
+
+// CloseEndpoints closes the harness endpoints.
+func (w *World) CloseEndpoints() {
 	for _, c := range w.C {
 		if c.Conn != nil {
 			_ = c.Conn.Close()
@@ -368,6 +393,12 @@ func (w *World) Close() {
 		_ = p.Sock.Close()
 	}
 	synctest.Wait()
+}
+
+// Close shuts the server and the harness endpoints down.
+func (w *World) Close() {
+	w.CloseServer()
+	w.CloseEndpoints()
 }
 
 // NextTx returns a fresh deterministic transaction id.
@@ -488,7 +519,25 @@ func (c *Client) Request(method uint16, tx *[12]byte, attrs func(b *wire.B)) Res
 		c.Send(b.Bytes())
 		synctest.Wait()
 		res := Result{Tx: id}
-		for _, rx := range c.Recv() {
+		rxs := c.Recv()
+		if w.Cfg.SlowCB > 0 {
+			// slow lifecycle callbacks: the answer needs virtual time
+			for range 8 {
+				got := false
+				for _, rx := range rxs {
+					if rx.Msg != nil && rx.Msg.TxID == id {
+						got = true
+					}
+				}
+				if got {
+					break
+				}
+				time.Sleep(w.Cfg.SlowCB)
+				synctest.Wait()
+				rxs = append(rxs, c.Recv()...)
+			}
+		}
+		for _, rx := range rxs {
 			if rx.Msg != nil && rx.Msg.TxID == id && rx.Msg.Method == method && rx.Msg.Class >= wire.Success {
 				if res.Resp == nil {
 					res.Resp = rx.Msg
